@@ -853,6 +853,15 @@ func (ex *Exec) evalBinary(st *State, e *ast.BinaryExpr, sc *SpecCtx) *Val {
 	switch e.Op {
 	case token.LAND, token.LOR:
 		a := ex.eval(st, e.X, sc)
+		// the right operand is unreachable when the path condition literally decides the left one
+		if sc == nil {
+			if e.Op == token.LAND && st.knows(not(a.S)) {
+				return ex.boolVal("false")
+			}
+			if e.Op == token.LOR && st.knows(a.S) {
+				return ex.boolVal("true")
+			}
+		}
 		// short-circuit: the right operand is evaluated under the left
 		st2 := st
 		if sc == nil {
